@@ -112,36 +112,29 @@ func gz(b []byte) []byte {
 	return buf.Bytes()
 }
 
-// childOf finds the traced nsq_to_file: the child of strace whose command line starts with the binary
-// (strace forks short-lived children of its own at start-up to probe ptrace features).
-func childOf(ppid int, bin string) int {
+// findTool finds the traced nsq_to_file of one scenario: the process whose command line is the binary with this
+// scenario's (unique) output directory.  (strace forks short-lived children of its own at start-up, and it runs
+// under timeout(1), so the process tree is not a reliable guide.)
+func findTool(bin, out string) int {
 	ents, _ := os.ReadDir("/proc")
 	for _, e := range ents {
 		pid, err := strconv.Atoi(e.Name())
 		if err != nil {
 			continue
 		}
-		b, err := os.ReadFile("/proc/" + e.Name() + "/stat")
+		cl, err := os.ReadFile("/proc/" + e.Name() + "/cmdline")
 		if err != nil {
 			continue
 		}
-		s := string(b)
-		i := strings.LastIndexByte(s, ')')
-		if i < 0 {
-			continue
-		}
-		f := strings.Fields(s[i+1:])
-		if len(f) > 1 {
-			if pp, _ := strconv.Atoi(f[1]); pp == ppid {
-				cl, _ := os.ReadFile("/proc/" + e.Name() + "/cmdline")
-				if strings.HasPrefix(string(cl), bin+"\x00") {
-					return pid
-				}
-			}
+		if strings.HasPrefix(string(cl), bin+"\x00") && strings.Contains(string(cl), "\x00-output-dir\x00"+out+"\x00") {
+			return pid
 		}
 	}
 	return 0
 }
+
+// hardLimit: whatever happens to the harness, no traced tool outlives this (timeout(1) kills its process group)
+var hardLimit = []string{"-s", "KILL", "1500", "strace"}
 
 const straceSet = "openat,open,creat,write,pwrite64,writev,pwritev,pwritev2,fsync,fdatasync,close,link,linkat,unlink,unlinkat," +
 	"rename,renameat,renameat2,truncate,ftruncate,sendfile,copy_file_range,fallocate"
@@ -282,7 +275,7 @@ func runScenario(base string, sc scenario, bin string) (res scenResult) {
 		toolArgs = append(toolArgs, "-rotate-interval", fmt.Sprintf("%dms", o.RotIntMs))
 	}
 	args = append(args, toolArgs...)
-	cmd := exec.Command("strace", args...)
+	cmd := exec.Command("timeout", append(append([]string(nil), hardLimit...), args...)...)
 	cmd.Dir = base
 	tl, _ := os.Create(filepath.Join(base, "tool.log"))
 	cmd.Stdout, cmd.Stderr = tl, tl
@@ -309,7 +302,7 @@ func runScenario(base string, sc scenario, bin string) (res scenResult) {
 			exited = true
 			dl = time.Now()
 		default:
-			if tool = childOf(cmd.Process.Pid, bin); tool == 0 {
+			if tool = findTool(bin, out); tool == 0 {
 				time.Sleep(2 * time.Millisecond)
 			}
 		}
@@ -448,7 +441,7 @@ func runScenario(base string, sc scenario, bin string) (res scenResult) {
 	if sc.Restart != "" {
 		slog2 = filepath.Join(base, "strace2.log")
 		a2 := append([]string{"-f", "-y", "-xx", "-s", "1048576", "-o", slog2, "-e", "signal=none", "-e", "trace=" + straceSet}, toolArgs...)
-		cmd2 := exec.Command("strace", a2...)
+		cmd2 := exec.Command("timeout", append(append([]string(nil), hardLimit...), a2...)...)
 		cmd2.Dir = base
 		tl2, _ := os.Create(filepath.Join(base, "tool2.log"))
 		cmd2.Stdout, cmd2.Stderr = tl2, tl2
@@ -472,7 +465,7 @@ func runScenario(base string, sc scenario, bin string) (res scenResult) {
 		}
 		tool2 := 0
 		for dl := time.Now().Add(30 * time.Second); tool2 == 0 && time.Now().Before(dl) && !wait2(2*time.Millisecond); {
-			tool2 = childOf(cmd2.Process.Pid, bin)
+			tool2 = findTool(bin, out)
 		}
 		if sc.Restart == "kill" {
 			wait2(time.Duration(200+rng.Intn(1500)) * time.Millisecond)
@@ -543,7 +536,7 @@ func runScenario(base string, sc scenario, bin string) (res scenResult) {
 	res.Owed = len(owed)
 	res.NotOwed = sc.NMsgs - len(owed)
 	if owedByStats != len(drained) {
-		res.Notes = append(res.Notes, fmt.Sprintf("stats said %d owed, drained %d", owedByStats, len(drained)))
+		res.Notes = append(res.Notes, fmt.Sprintf("stats said %d owed (%+v), drained %d deliveries of %d messages", owedByStats, cc, len(drained), len(owed)))
 	}
 
 	// ---- inspection of the directories (independent of the syscall log)
